@@ -1,5 +1,5 @@
 (* C04 - concurrent requests on a key behave as if processed one at a time. *)
-From DV Require Import Model.ConcRules Model.ConcVariants Proofs.ConcProofs Proofs.ConcRulesProofs Proofs.ConcVariantsProofs.
+From DV Require Import Model.ConcRules Model.ConcVariants Proofs.ConcProofs Proofs.ConcRulesProofs Proofs.ConcVariantsProofs Proofs.ConcRefine.
 From Coq Require Import Permutation.
 Local Open Scope Z_scope.
 
@@ -36,6 +36,20 @@ Theorem C04_realtime_order :
     exists newer, w_log w' = (newer ++ w_log w)%list /\ In a (map (tid _ _) (w_log w)) /\ ~ In b (map (tid _ _) (w_log w)).
 Proof. exact conc_realtime. Qed.
 Print Assumptions C04_realtime_order.
+
+(* (c) The serial execution of (a) is a run of the ruler / rules model that C01, C02 and C05 are proved
+   about: if the protocol's store abstracts a protection store st0 (abs: every key's value is that
+   store's attestation record and proposal slot), then in every reachable completed world the verdicts
+   returned, in commit order, are exactly those of the sequential rules model run from st0 on the same
+   requests, and the store reached abstracts the store that run reaches. *)
+Theorem C04_concurrent_is_sequential_rules :
+  forall c cs0 st0 rs (w : cworld),
+    abs cs0 st0 -> creach c cs0 rs w -> all_finished _ _ _ w ->
+    let order := rev (w_log w) in
+    map (log_out _ _) order = snd (rrun c st0 (map (log_req _ _) order)) /\
+    abs (w_store w) (fst (rrun c st0 (map (log_req _ _) order))).
+Proof. exact concurrent_is_sequential_rules. Qed.
+Print Assumptions C04_concurrent_is_sequential_rules.
 
 (* Consequences through (a): since every concurrent outcome is a serial history, C01/C02 apply to
    it: two conflicting requests for a key are never both approved, an approved update is never
